@@ -22,6 +22,9 @@ type Tok struct {
 	// FailAt: for TBad, the number of bytes of Text the lexer has consumed
 	// when it reports the failure (the diagnostic points there).
 	FailAt int
+	// ToEOL: an unterminated string; the lexer reads on to the end of the
+	// line, so Layout ends the line right after it (or it is the last token).
+	ToEOL bool
 }
 
 var Keywords = map[string]bool{"var": true, "def": true, "eval": true, "print": true, "bind": true,
@@ -291,9 +294,21 @@ func Layout(toks []Tok, o LayoutOpts, r *rand.Rand) *Laid {
 		l.Start[i] = len(b)
 		b = append(b, t.Text...)
 		l.End[i] = len(b)
+		if t.Kind == TBad && t.ToEOL {
+			toks[i].FailAt = len(t.Text)
+			if i < len(toks)-1 {
+				b = append(b, '\n')
+				toks[i].FailAt = len(t.Text) + 1
+			}
+			t = toks[i]
+		}
 		if t.Kind == TBad && l.FailAt < 0 {
 			l.FailAt = l.Start[i] + t.FailAt
 		}
+	}
+	if n := len(toks); n > 0 && toks[n-1].ToEOL {
+		l.Src = b
+		return l
 	}
 	if o.Hostile && o.LeadTrail {
 		g := randGap(r, o, false, true)
